@@ -1182,6 +1182,24 @@ def fam_coverage_gaps(rng):
     return out
 
 
+# every shape of the dependency parameter once more with mocks switched on: which functions can be un-mocked (and what the impl is
+# restricted to) depends on how the dependency is classified
+def fam_deps_mock(rng):
+    out = []
+    for _, first, gens in DEPS_SHAPES:
+        params = ", ".join([p for p in (first, "a: i32") if p])
+        where = ""
+        g = gens
+        if " where " in gens:
+            g, where = gens.split(" where ")
+            where = " where " + where
+        f = "fn foo%s(%s) -> i32%s { a }" % (g, params, where)
+        for attr in ("Foo, mock_api = M, unimock", "Foo, mockall", "Foo, mock_api = M, unimock, mockall, export"):
+            out.append(Case("deps_mock", attr, f))
+            out.append(Case("deps_mock", attr, "mod m { pub %s pub async fn other(q: &impl B, z: u8) -> u8 { z } }" % f))
+    return out
+
+
 def build_corpus(seed, tier):
     rng = random.Random(seed)
     thorough = tier == "thorough"
@@ -1213,6 +1231,7 @@ def build_corpus(seed, tier):
     cases += fam_dup_attrs(rng)
     cases += fam_vis_exhaustive(rng)
     cases += fam_coverage_gaps(rng)
+    cases += fam_deps_mock(rng)
     for i, c in enumerate(cases):
         c.cid = i
     return cases
